@@ -73,6 +73,21 @@ def same(got, want):
 _DRESS = {"k": 0}
 
 
+def label_user_controllers(mm, labels):
+    """A MetaModule whose user-defined controllers (mapped onto an embedded Amplifier) carry the given names - names
+    that happen to be those of the MetaModule's own controllers or options are ordinary names."""
+    from rv.api import m
+
+    mm.project.new_module(m.Amplifier)
+    for i, lab in enumerate(labels):
+        mm.mappings.values[i] = mm.Mapping((1, i % 6))
+    mm.user_defined_controllers = len(labels)
+    mm.update_user_defined_controllers()
+    for i, lab in enumerate(labels):
+        mm.user_defined[i].label = lab
+    return mm
+
+
 def dress(mod, k=None):
     """Circumstances that have nothing to do with a controller's domain: the module may carry any
     name (also one that means something to a string template) and may sit in a project.
@@ -81,6 +96,8 @@ def dress(mod, k=None):
 
     if k is None:
         k = _DRESS["k"] = _DRESS["k"] + 1
+    if type(mod).__name__ == "MetaModule" and k % 2 == 0:
+        label_user_controllers(mod, [c.replace("_", " ").title() for c in list(type(mod).controllers)[:5]] + ["Arpeggiator", "volume"])
     if k % 3 == 0:
         mod.name = vs.TRICKY_TEXTS[(k // 3) % len(vs.TRICKY_TEXTS)]
     if k % 4 == 0:
